@@ -25,6 +25,11 @@ CHECKS = {
    note="Trusts: Go runtime, testing/synctest quiescence, the SimReader/SimWriter doubles, go build -overlay faithfully replacing only the sync import of minify.go. Fault model fail-stop. Documents come from /repo's test tables, fuzz corpora, benchmarks plus a few built-in hosts."),
 }
 
+CHECKS["C12"] = dict(engine="libsim", level="exploration", design_ref="DESIGN.md §3 C12",
+   technique="deterministic simulation: seeded scheduler over the real io.Pipe/goroutine wrappers (synctest quiescence), all chunk compositions of short inputs, tape-drawn partitions/pacing for long ones, oracle = plain sequential call",
+   text="Every entry point (Bytes, String, Reader, Writer, ResponseWriter, Middleware, MiddlewareWithError, Match, chunked plain call) is run on real code under a seeded scheduler that decides every interleaving of producer writes, minifier goroutine and consumer reads; all 2^(n-1) chunk compositions of the short inputs, random partitions (incl. empty and 1-byte chunks) of corpus documents of all six types plus a streaming and a failing stub minifier. Bytes and error must equal the plain call; output complete and no later write at the event 'Close returned'; HTTP: no stale Content-Length, status forwarded, minifier chosen by Content-Type else path extension, pass-through when none. Sampling of schedules and long-input partitions, exhaustive only for the short-input compositions.",
+   note="Trusts: Go runtime, testing/synctest, the doubles; SimResponseWriter is a stub of net/http that models only header freezing. Reference is computed by the same tree (plain call), so this check cannot see a bug that changes the plain call identically.")
+
 PENDING = {}
 
 def main():
@@ -67,5 +72,5 @@ def main():
     print("wrote MANIFEST.json:", len(checks), "checks,", len(na), "not applicable")
 
 if __name__ == "__main__":
-    PENDING.update({p: "check not built yet in this round (planned, see DESIGN.md §3); not claimed until it exists" for p in ["C10","C11","C12","C13","C15","C19","C20"]})
+    PENDING.update({p: "check not built yet in this round (planned, see DESIGN.md §3); not claimed until it exists" for p in ["C10","C11","C13","C15","C19","C20"]})
     main()
